@@ -50,7 +50,12 @@ class A2(A):
 
 
 class B(State):
+    """a state type whose instances are FALSY (user types may define __bool__ / __len__): supplied is supplied"""
+
     v: int
+
+    def __bool__(self) -> bool:
+        return False
 
 
 TYPES = {"A": A, "A2": A2, "B": B}
